@@ -83,6 +83,10 @@ def gen_case(rng: random.Random):
         reactions.append((r, p))
     used = {x for r, p in reactions for x in r + p}
     required = [x for x in names if x not in used][: rng.randint(0, 2)]
+    if required and rng.random() < 0.4:
+        required = required + [required[0]]                 # a species asked for twice is still one species
+    if not espell and rng.random() < 0.3:
+        required = required + rng.sample(sorted(ELECTRON), 2)   # ... also under two spellings, and taking part in no reaction
     return {"reactions": reactions, "required": required, "incremental": rng.random() < 0.5}
 
 
